@@ -550,6 +550,27 @@ def run(tier):
                     rep.add_violation(sig, '%s [%s]: under schedule %s %s got %s, single-threaded %s' % (
                         desc, s['variant'], seg, who, ex['results'][i], s['expected'][i]),
                         {'scenario': {k: s[k] for k in ('group', 'calls', 'variant', 'prefill', 'epilogue')}, 'segments': seg})
+        # binding self-test (DESIGN section 7): executions TLC accepted, with one thread's recorded result altered, must
+        # be rejected
+        flagged_q = {idx[pr['tid'] - 1] for idx, r in zip(shards, outs) for pr in r.printed}
+        import copy as _copy
+        badrecs = []
+        for q, rc_ in enumerate(recs):
+            if q in flagged_q or not rc_['results']:
+                continue
+            c = _copy.deepcopy(rc_)
+            c['results'][0] = 'ok:corrupted'
+            badrecs.append(c)
+            if len(badrecs) >= 6:
+                break
+        if badrecs and not os.environ.get('VERIF_NO_SELFTEST'):
+            p = sc_.file('lz_selftest.ndjson')
+            common.write_ndjson(p, badrecs)
+            r = common.run_tlc_shards(specdir, 'Trace_Lazy', 'Trace_Lazy.cfg', [{'TRACE_FILE': p}], workers_each=1)[0]
+            rejected = len({pr['tid'] for pr in r.printed if pr.get('kind') != 'drift'})
+            common.SELFTESTS.append({'trace_spec': 'Trace_Lazy', 'corrupted': len(badrecs), 'rejected': rejected})
+            if rejected < len(badrecs):
+                raise MachineryError('binding self-test: Trace_Lazy accepted %d of %d corrupted executions' % (len(badrecs) - rejected, len(badrecs)))
         phases['record_validation'] = round(_t.time() - t0, 1)
         # code -> spec: the executions of the lazily-built-table code as behaviours of the PlusCal model
         for group in sorted(LABELS):
